@@ -75,6 +75,10 @@ func c17Covers(cs c17Case, added [][]int, cm c17Comment, r reporter.Report) bool
 	if !strings.Contains(cm.Text, r.Problem.Summary) || !strings.Contains(cm.Text, r.Problem.Reporter) {
 		return false
 	}
+	// "carrying its text": the details of a problem are part of its text
+	if r.Problem.Details != "" && !strings.Contains(cm.Text, r.Problem.Details) {
+		return false
+	}
 	return c17LineOK(cs, added, cm.Line, c17FileIndex(cm.Path), r.Problem.Lines.First, r.Problem.Lines.Last, r.Problem.Anchor == checks.AnchorBefore)
 }
 
